@@ -61,6 +61,26 @@ func checkC05(c *Ctx, r *Report) {
 	c05Split(c, r, "R5.3")
 	c05Loops(c, r)
 	c05SlotMerge(c, r)
+	// R5.6: extraction must not modify the response it reads, otherwise an overlapping field
+	// decoded later differs from the device's memory (derived-pointer analysis of C13)
+	{
+		roots := []*ssa.Function{c.fnMust("", "*Field.ExtractFrom"), c.fnMust("", "BuilderRequest.ExtractFields"),
+			c.fnMust("", "BuilderRequest.extractRegisterFields"), c.fnMust("", "BuilderRequest.extractCoilFields")}
+		t := runC13(c, roots, payloadFields(c, "packet"))
+		r.instance("R5.6", len(roots))
+		seen := map[string]bool{}
+		for _, f := range t.findings {
+			k := f.rule + f.sig + fnID(f.fn)
+			if seen[k] {
+				continue
+			}
+			seen[k] = true
+			r.fail("R5.6", fnID(f.fn), f.what+" (fields extracted afterwards no longer equal device memory)", c.pos(f.pos), "", f.sig)
+		}
+		if len(seen) == 0 {
+			r.ok("R5.6", "modbus.BuilderRequest.ExtractFields", fmt.Sprintf("extraction (%d functions reachable) neither writes the response payload nor keeps decoder state", len(t.funcs)), "-", true)
+		}
+	}
 	r.assumption("devices answer as the specification requires; decoding correctness of the accessors is C04")
 }
 
